@@ -232,6 +232,12 @@ func (x *Exec) runTop(fn *ssa.Function, c *Contract) {
 	for _, cl := range c.Requires {
 		x.em.Assert(fr.evalBool(cl.Expr, env))
 	}
+	rc := &ReplayCtx{fn: fn, entry: fr.entry, x: x}
+	for _, p := range fn.Params {
+		rc.params = append(rc.params, fr.vals[p])
+		rc.names = append(rc.names, p.Name())
+	}
+	x.replayCtx = rc
 	x.stack = []*ssa.Function{fn}
 	fr.run()
 	// vacuity guard: some return must be reachable under the assumptions
@@ -300,10 +306,12 @@ func (fr *Frame) checkPost(vs []*SVal) {
 	if rv != nil {
 		bindResults(env, fr.fn, rv)
 	}
+	x.curRets = vs
 	for i, cl := range c.Ensures {
 		t := fr.evalBool(cl.Expr, env)
 		fr.oblige("post", cl.label(i), t, cl.Src)
 	}
+	x.curRets = nil
 	if c.HasModifies && !c.ModifiesAll {
 		allowed := map[string]bool{allocName: true}
 		for _, m := range c.Modifies {
